@@ -597,7 +597,7 @@ func init() {
 		Explanation: "Decides the structural clause 'the codec tables are complete and symmetric': every expr.Expr implementation registered once with a unique msgpack extension id; goexpr types constructible from SQL registered; every field read by an expression's behavioural methods restored on decode (exported/default-coded or assigned in DecodeMsgpack, function-valued fields from the constructor's registry); custom encoder/decoder operand sequences equal; all message structs crossing SendMsg/RecvMsg fully exported (FlatRow.fields restored by the receiver). Added clauses: every RecvMsg in a loop decodes into an object allocated in that iteration; the follower's query context carries the request's IncludeMemStore on every path and its deadline.",
 		NotDecided:  []string{"byte-level fidelity of msgpack, snappy and gRPC", "float formatting / NaN payloads", "value equality of decoded expressions on data (needs execution)"},
 		Assumptions: []string{"msgpack v3.1.4: structs are encoded as maps of exported and embedded fields; types with EncodeMsgpack/DecodeMsgpack use those; RegisterExt ids select the decoded type"},
-		Rules:       []func(*Ctx){ruleC20a, ruleC20b, ruleC20c, ruleC20d, ruleC20e, ruleC20f, ruleC20g, ruleC20h},
+		Rules:       []func(*Ctx){ruleC20a, ruleC20b, ruleC20c, ruleC20d, ruleC20e, ruleC20f, ruleC20g, ruleC20h, ruleC20i, ruleC20j},
 	})
 }
 
@@ -959,4 +959,80 @@ func ruleC20h(c *Ctx) {
 		c.check(rule, "ProcessRemoteQuery: the request's deadline bounds the follower's query", call.Pos(), okDL, "context.WithDeadline(…, q.Deadline) under q.HasDeadline", "the follower does not run the query under the deadline the leader sent")
 	}
 	c.floor(rule, "query function calls in ProcessRemoteQuery", n, 1)
+}
+
+// ruleC20i: what the codec returns stays what it encoded.
+func ruleC20i(c *Ctx) {
+	const rule = "C20.i"
+	c.describe(rule, "flow (ownership): MsgPackCodec.Marshal returns bytes that nothing else will write — neither it nor a helper of it takes the encode buffer from, or returns it to, a pool (sync.Pool); grpc keeps the slice beyond the call (it copies only the first frame synchronously), so a recycled buffer lets the tail of a large message be overwritten by the next one")
+	mf := c.need(rule, "(*z/rpc.MsgPackCodec).Marshal")
+	if mf == nil {
+		return
+	}
+	bad := ""
+	for _, f := range withHelpers(c.P, mf) {
+		for _, call := range calls(f) {
+			cn := calleeName(call)
+			if cn == "(*sync.Pool).Put" || cn == "(*sync.Pool).Get" {
+				bad = cn + " at " + c.P.Pos(call.Pos())
+			}
+		}
+	}
+	c.check(rule, "Marshal returns bytes it does not recycle", mf.Pos(), bad == "", "no pooled buffer in Marshal", "Marshal encodes into a pooled buffer ("+bad+") and returns its bytes: the next Marshal overwrites them while grpc may still be sending them — rows decode without error but carry another message's trailing values")
+}
+
+// ruleC20j: a partition is retried only while nothing of it has been delivered.
+func ruleC20j(c *Ctx) {
+	const rule = "C20.j"
+	c.describe(rule, "dom: in the handler registered by HandleRemoteQueries an error is marked retriable (queryCluster then re-runs the partition on another handler) only where no row of this partition can have been handed on yet — before the receive loop, or under the 'first message' flag; rows already streamed are not retracted, so a retry after a mid-result failure returns them twice and reports the partition successful")
+	hq := c.need(rule, "(*z/rpc/server.server).HandleRemoteQueries")
+	if hq == nil {
+		return
+	}
+	var h *ssa.Function
+	for _, a := range hq.AnonFuncs {
+		for _, p := range a.Params {
+			if typeStr(p.Type()) == "z/core.OnFields" {
+				h = a
+			}
+		}
+	}
+	if h == nil {
+		c.undecided(rule, "registered query handler", hq.Pos(), "no closure with an OnFields parameter found")
+		return
+	}
+	var rowCalls []ssa.Instruction
+	for _, call := range calls(h) {
+		for _, p := range h.Params {
+			ts := typeStr(p.Type())
+			if (ts == "z/core.OnRow" || ts == "z/core.OnFlatRow") && isCallOfParam(call, p) {
+				rowCalls = append(rowCalls, call.(ssa.Instruction))
+			}
+		}
+	}
+	n := 0
+	for _, call := range callsTo(h, "z/common.MarkRetriable") {
+		n++
+		afterRows := false
+		for _, rc := range rowCalls {
+			if instrReaches(rc, call.(ssa.Instruction), nil) {
+				afterRows = true
+			}
+		}
+		firstGuard := false
+		for _, g := range guardsOf(call.Block()) {
+			if g.pos && typeStr(g.v.Type()) == "bool" {
+				if _, isPhi := g.v.(*ssa.Phi); isPhi {
+					// the 'first' flag: true initially, set false once the fields message was consumed
+					for _, leaf := range phiLeaves(g.v) {
+						if cb, isC := constBool(leaf); isC && cb {
+							firstGuard = true
+						}
+					}
+				}
+			}
+		}
+		c.check(rule, "retriable #"+itoa(n)+" only before any row was delivered", call.Pos(), !afterRows || firstGuard, "not reachable from a row callback, or under the first-message flag", "an error is marked retriable at a point that can follow the delivery of rows: queryCluster re-runs the partition on another handler and the rows the failed stream already delivered are returned again")
+	}
+	c.floor(rule, "MarkRetriable calls in the registered handler", n, 2)
 }
